@@ -48,6 +48,12 @@ def mirror_problems(go, base):
     a, b, c = go.get(base + "a"), go.get(base + "b"), go.get(base + "c")
     if not a or not b or not c:
         return [("missing output", "", "")]
+    # the two forms differ in the prefix byte itself: a case whose data accesses touch that byte is outside the claim
+    ea0, eb0 = a[29:], b[29:]
+    if len(ea0) >= 3:
+        pfx = ea0[1]
+        if any(ea0[j + 1] == pfx for j in range(3, len(ea0) - 2, 3)) or any(eb0[j + 1] == pfx for j in range(3, len(eb0) - 2, 3)):
+            return None
     probs = []
     sw = list(b)
     sw[F.index("IX")], sw[F.index("IY")] = b[F.index("IY")], b[F.index("IX")]
@@ -79,8 +85,12 @@ def run(tier, seed):
     lines, meta = gen(rng, tier)
     go = pipeline.run_lines(go_bin, lines)
     bad = []
+    excluded = 0
     for base in meta:
         pb = mirror_problems(go, base)
+        if pb is None:
+            excluded += 1
+            continue
         if pb:
             la = [l for l in lines if l.split()[1] in (base + "a", base + "b", base + "c")]
             bad.append((base, la, pb))
@@ -114,7 +124,7 @@ def run(tier, seed):
            "rule": "all 255 second bytes after DD/FD and all 256 fourth bytes after DDCB/FDCB x structured random states with independent IX, IY, displacement: "
                    "(1) FD form from the IX/IY-swapped state must equal the DD form after swapping back, with the same access log apart from the prefix byte; "
                    "(2) the DD form must ignore IY; real code only (metamorphic), plus real code vs extracted generated model",
-           "distribution": dist, "samples": lines[:3]}
+           "distribution": dist, "samples": lines[:3], "excluded_operand_on_prefix_byte": excluded}
     common.write_evidence(PROP, tier, seed, "proof", cov, ["states well formed"], time.time() - t0)
     return 0
 
